@@ -18,6 +18,7 @@ type BWarrior struct {
 // BattleCase is a whole battle: configuration, warriors and placements.
 type BattleCase struct {
 	M, P, C, R, W int
+	HugeC         uint64 `json:",omitempty"` // when non-zero: the real cycle limit (>= 2^32); C then only bounds the reference
 	Warriors      []*BWarrior
 }
 
@@ -95,7 +96,11 @@ func genBattle(r *Rng, maxW int, limits bool) *BattleCase {
 }
 
 func (bc *BattleCase) config() g.SimulatorConfig {
-	return g.SimulatorConfig{Mode: g.ICWS94, CoreSize: g.Address(bc.M), Processes: g.Address(bc.P), Cycles: g.Address(bc.C),
+	cycles := g.Address(bc.C)
+	if bc.HugeC != 0 {
+		cycles = g.Address(bc.HugeC)
+	}
+	return g.SimulatorConfig{Mode: g.ICWS94, CoreSize: g.Address(bc.M), Processes: g.Address(bc.P), Cycles: cycles,
 		ReadLimit: g.Address(bc.R), WriteLimit: g.Address(bc.W), Length: 0, Distance: 0}
 }
 
@@ -142,7 +147,7 @@ func apiDecided(s g.Simulator) bool {
 	switch {
 	case n == 0:
 		return true
-	case s.CycleCount() >= s.MaxCycles():
+	case uint64(s.CycleCount()) >= uint64(s.MaxCycles()): // the limit is an unsigned 64-bit number
 		return true
 	case n == 1:
 		return living == 0
